@@ -359,6 +359,26 @@ def «wait_defer» : Stmt :=
   block [(.prim none .udec [.addrGlob "defer_thread_futex", .cst "CMM_RELAXED" (0)]), (.prim none .mb []), (.prim (some "_t1") .uload [.addrGlob "defer_thread_stop", .cst "CMM_RELAXED" (0)]), (.ifte (.var "_t1") (block [(.prim none .ustore [.addrGlob "defer_thread_futex", .lit 0, .cst "CMM_RELAXED" (0)]), (.prim none (.ext "pthread_exit") [.lit 0])]) (.skip)), (.prim (some "_t2") (.ext "rcu_defer_num_callbacks") []), (.ifte (.var "_t2") (block [(.prim none .mb []), (.prim none .ustore [.addrGlob "defer_thread_futex", .lit 0, .cst "CMM_RELAXED" (0)])]) (block [(.prim none .rmb []), (.loop (block [(.prim (some "_t3") .uload [.addrGlob "defer_thread_futex", .cst "CMM_RELAXED" (0)]), (.ifte (.bin .eq (.var "_t3") (.lit (-1))) (block [(.prim (some "_t4") (.ext "futex_noasync") [.addrGlob "defer_thread_futex", .cst "FUTEX_WAIT" (0), .lit (-1), .null, .null, .lit 0]), (.ifte (.un .lnot (.var "_t4")) (.cont) (.skip)), (.prim (some "_t5") (.ext "errno") []), (.assign "_t6" (.var "_t5")), (.ifte (.bin .eq (.var "_t6") (.cst "EAGAIN" (11))) (.ret none) (.ifte (.bin .eq (.var "_t6") (.cst "EINTR" (4))) (.skip) (block [(.prim (some "_t7") (.ext "errno") []), (.prim none (.ext "urcu_die") [.var "_t7"])])))]) (.brk))]))]))]
 def «wait_defer.params» : List String := []
 
+/-- `rcu_defer_barrier_queue` (src/urcu-defer-impl.h) -/
+def «rcu_defer_barrier_queue» : Stmt :=
+  block [(.assign "i" (.pload (.fieldAddr (.var "queue") "tail"))), (.loop (.ifte (.bin .ne (.var "i") (.var "head")) (block [(.prim none .rmb []), (.assign "_t1" (.var "i")), (.assign "i" (.bin .add (.var "i") (.lit 1))), (.prim (some "_t2") .uload [.index (.fieldAddr (.var "queue") "q") (.bin .band (.var "_t1") (.cst "DEFER_QUEUE_MASK" (4095))), .cst "CMM_RELAXED" (0)]), (.assign "p" (.var "_t2")), (.ifte (.bin .band (.var "p") (.cst "DQ_FCT_BIT" (1))) (block [(.assign "p" (.bin .band (.var "p") (.cst "NOT_DQ_FCT_BIT" (18446744073709551614)))), (.assign "_t3" (.var "p")), (.pstore (.fieldAddr (.var "queue") "last_fct_out") (.var "_t3")), (.assign "_t4" (.var "i")), (.assign "i" (.bin .add (.var "i") (.lit 1))), (.prim (some "_t5") .uload [.index (.fieldAddr (.var "queue") "q") (.bin .band (.var "_t4") (.cst "DEFER_QUEUE_MASK" (4095))), .cst "CMM_RELAXED" (0)]), (.assign "p" (.var "_t5"))]) (.ifte (.bin .eq (.var "p") (.cst "DQ_FCT_MARK" (18446744073709551614))) (block [(.assign "_t6" (.var "i")), (.assign "i" (.bin .add (.var "i") (.lit 1))), (.prim (some "_t7") .uload [.index (.fieldAddr (.var "queue") "q") (.bin .band (.var "_t6") (.cst "DEFER_QUEUE_MASK" (4095))), .cst "CMM_RELAXED" (0)]), (.assign "p" (.var "_t7")), (.assign "_t8" (.var "p")), (.pstore (.fieldAddr (.var "queue") "last_fct_out") (.var "_t8")), (.assign "_t9" (.var "i")), (.assign "i" (.bin .add (.var "i") (.lit 1))), (.prim (some "_t10") .uload [.index (.fieldAddr (.var "queue") "q") (.bin .band (.var "_t9") (.cst "DEFER_QUEUE_MASK" (4095))), .cst "CMM_RELAXED" (0)]), (.assign "p" (.var "_t10"))]) (.skip))), (.assign "fct" (.pload (.fieldAddr (.var "queue") "last_fct_out"))), (.prim none (.ext "(*)") [.var "fct", .var "p"])]) (.brk))), (.prim none .mb []), (.prim none .ustore [.fieldAddr (.var "queue") "tail", .var "i", .cst "CMM_RELAXED" (0)])]
+def «rcu_defer_barrier_queue.params» : List String := ["queue", "head"]
+
+/-- `_rcu_defer_barrier_thread` (src/urcu-defer-impl.h) -/
+def «_rcu_defer_barrier_thread» : Stmt :=
+  block [(.assign "head" (.pload (.fieldAddr (.addrTls "defer_queue") "head"))), (.assign "num_items" (.bin .sub (.var "head") (.pload (.fieldAddr (.addrTls "defer_queue") "tail")))), (.ifte (.un .lnot (.var "num_items")) (.ret none) (.skip)), (.prim none (.ext "synchronize_rcu") []), (.call none ["queue", "head"] [.addrTls "defer_queue", .var "head"] «rcu_defer_barrier_queue»)]
+def «_rcu_defer_barrier_thread.params» : List String := []
+
+/-- `rcu_defer_barrier_thread` (src/urcu-defer-impl.h) -/
+def «rcu_defer_barrier_thread» : Stmt :=
+  block [(.prim none (.ext "mutex_lock_defer") [.addrGlob "rcu_defer_mutex"]), (.call none [] [] «_rcu_defer_barrier_thread»), (.prim none (.ext "mutex_unlock") [.addrGlob "rcu_defer_mutex"])]
+def «rcu_defer_barrier_thread.params» : List String := []
+
+/-- `_defer_rcu` (src/urcu-defer-impl.h) -/
+def «_defer_rcu» : Stmt :=
+  block [(.assign "head" (.pload (.fieldAddr (.addrTls "defer_queue") "head"))), (.prim (some "_t1") .uload [.fieldAddr (.addrTls "defer_queue") "tail", .cst "CMM_RELAXED" (0)]), (.assign "tail" (.var "_t1")), (.ifte (.bin .ge (.bin .sub (.var "head") (.var "tail")) (.bin .sub (.cst "DEFER_QUEUE_SIZE" (4096)) (.lit 2))) (block [(.call none [] [] «rcu_defer_barrier_thread»), (.prim (some "_t2") .uload [.fieldAddr (.addrTls "defer_queue") "tail", .cst "CMM_RELAXED" (0)]), (.ifte (.bin .eq (.bin .sub (.var "head") (.var "_t2")) (.lit 0)) (.skip) (.prim none (.ext "abort") []))]) (.skip)), (.ifte (.bin .lor (.bin .lor (.bin .ne (.pload (.fieldAddr (.addrTls "defer_queue") "last_fct_in")) (.var "fct")) (.bin .band (.var "p") (.cst "DQ_FCT_BIT" (1)))) (.bin .eq (.var "p") (.cst "DQ_FCT_MARK" (18446744073709551614)))) (block [(.assign "_t3" (.var "fct")), (.pstore (.fieldAddr (.addrTls "defer_queue") "last_fct_in") (.var "_t3")), (.ifte (.bin .lor (.bin .band (.var "fct") (.cst "DQ_FCT_BIT" (1))) (.bin .eq (.var "fct") (.cst "DQ_FCT_MARK" (18446744073709551614)))) (block [(.assign "_t4" (.var "head")), (.assign "head" (.bin .add (.var "head") (.lit 1))), (.prim none .ustore [.index (.fieldAddr (.addrTls "defer_queue") "q") (.bin .band (.var "_t4") (.cst "DEFER_QUEUE_MASK" (4095))), .cst "DQ_FCT_MARK" (18446744073709551614), .cst "CMM_RELAXED" (0)]), (.assign "_t5" (.var "head")), (.assign "head" (.bin .add (.var "head") (.lit 1))), (.prim none .ustore [.index (.fieldAddr (.addrTls "defer_queue") "q") (.bin .band (.var "_t5") (.cst "DEFER_QUEUE_MASK" (4095))), .var "fct", .cst "CMM_RELAXED" (0)])]) (block [(.assign "fct" (.bin .bor (.var "fct") (.cst "DQ_FCT_BIT" (1)))), (.assign "_t6" (.var "head")), (.assign "head" (.bin .add (.var "head") (.lit 1))), (.prim none .ustore [.index (.fieldAddr (.addrTls "defer_queue") "q") (.bin .band (.var "_t6") (.cst "DEFER_QUEUE_MASK" (4095))), .var "fct", .cst "CMM_RELAXED" (0)])]))]) (.skip)), (.assign "_t7" (.var "head")), (.assign "head" (.bin .add (.var "head") (.lit 1))), (.prim none .ustore [.index (.fieldAddr (.addrTls "defer_queue") "q") (.bin .band (.var "_t7") (.cst "DEFER_QUEUE_MASK" (4095))), .var "p", .cst "CMM_RELAXED" (0)]), (.prim none .wmb []), (.prim none .ustore [.fieldAddr (.addrTls "defer_queue") "head", .var "head", .cst "CMM_RELAXED" (0)]), (.prim none .mb []), (.call none [] [] «wake_up_defer»)]
+def «_defer_rcu.params» : List String := ["fct", "p"]
+
 /-- `_cds_wfs_first` (include/urcu/static/wfstack.h) -/
 def «_cds_wfs_first» : Stmt :=
   block [(.call (some "_t1") ["node"] [.var "head"] «___cds_wfs_end»), (.ifte (.var "_t1") (.ret (some (.null))) (.skip)), (.ret (some (.var "head")))]
@@ -481,5 +501,5 @@ def «bp.urcu_bp_synchronize_rcu.params» : List String := []
 
 /-- functions the translator could not express in the IR subset (listed, never defaulted) -/
 def untranslated : List String := []
-def translated : List String := ["urcu_memb_smp_mb_slave", "_urcu_memb_read_lock_update", "_urcu_memb_read_lock", "urcu_common_wake_up_gp", "_urcu_memb_read_unlock_update_and_wakeup", "_urcu_memb_read_unlock", "_urcu_memb_read_ongoing", "_urcu_mb_read_lock_update", "_urcu_mb_read_lock", "_urcu_mb_read_unlock_update_and_wakeup", "_urcu_mb_read_unlock", "_urcu_mb_read_ongoing", "urcu_bp_smp_mb_slave", "_urcu_bp_read_lock_update", "_urcu_bp_read_lock", "_urcu_bp_read_unlock", "_urcu_bp_read_ongoing", "_urcu_qsbr_read_lock", "_urcu_qsbr_read_unlock", "_urcu_qsbr_read_ongoing", "urcu_qsbr_wake_up_gp", "_urcu_qsbr_quiescent_state_update_and_wakeup", "_urcu_qsbr_quiescent_state", "_urcu_qsbr_thread_offline", "_urcu_qsbr_thread_online", "___cds_wfs_end", "_cds_wfs_push", "___cds_wfs_node_sync_next", "___cds_wfs_pop", "___cds_wfs_pop_all", "_cds_wfs_empty", "___cds_lfs_empty_head", "_cds_lfs_push", "___cds_lfs_pop", "___cds_lfs_pop_all", "_cds_lfs_empty", "___cds_wfcq_append", "_cds_wfcq_enqueue", "_cds_wfcq_empty", "___cds_wfcq_busy_wait", "___cds_wfcq_node_sync_next", "_cds_wfcq_node_init_atomic", "___cds_wfcq_dequeue_with_state", "___cds_wfcq_splice", "_cds_lfq_enqueue_rcu", "make_dummy", "enqueue_dummy", "rcu_free_dummy", "_cds_lfq_dequeue_rcu", "urcu_ref_get_safe", "urcu_ref_put", "urcu_ref_get_unless_zero", "urcu_wait_add", "urcu_move_waiters", "urcu_wait_set_state", "_cds_wfs_node_init", "urcu_wait_node_init", "urcu_adaptative_wake_up", "urcu_adaptative_busy_wait", "call_rcu_wait", "call_rcu_wake_up", "call_rcu_completion_wait", "call_rcu_completion_wake_up", "wake_call_rcu_thread", "_cds_wfcq_node_init", "_call_rcu", "futex_wait", "futex_wake_up", "wake_worker_thread", "wake_up_defer", "wait_defer", "_cds_wfs_first", "___cds_wfs_next", "_cds_wfs_next_blocking", "urcu_wake_all_waiters", "memb.smp_mb_master", "memb.wait_gp", "urcu_common_reader_state", "memb.wait_for_readers", "memb.synchronize_rcu", "mb.smp_mb_master", "mb.wait_gp", "mb.wait_for_readers", "mb.synchronize_rcu", "qsbr.wait_gp", "urcu_qsbr_reader_state", "qsbr.wait_for_readers", "qsbr.urcu_qsbr_read_ongoing", "qsbr.urcu_qsbr_thread_offline", "qsbr.urcu_qsbr_thread_online", "qsbr.urcu_qsbr_synchronize_rcu", "bp.smp_mb_master", "urcu_bp_reader_state", "bp.wait_for_readers", "bp.urcu_bp_synchronize_rcu"]
+def translated : List String := ["urcu_memb_smp_mb_slave", "_urcu_memb_read_lock_update", "_urcu_memb_read_lock", "urcu_common_wake_up_gp", "_urcu_memb_read_unlock_update_and_wakeup", "_urcu_memb_read_unlock", "_urcu_memb_read_ongoing", "_urcu_mb_read_lock_update", "_urcu_mb_read_lock", "_urcu_mb_read_unlock_update_and_wakeup", "_urcu_mb_read_unlock", "_urcu_mb_read_ongoing", "urcu_bp_smp_mb_slave", "_urcu_bp_read_lock_update", "_urcu_bp_read_lock", "_urcu_bp_read_unlock", "_urcu_bp_read_ongoing", "_urcu_qsbr_read_lock", "_urcu_qsbr_read_unlock", "_urcu_qsbr_read_ongoing", "urcu_qsbr_wake_up_gp", "_urcu_qsbr_quiescent_state_update_and_wakeup", "_urcu_qsbr_quiescent_state", "_urcu_qsbr_thread_offline", "_urcu_qsbr_thread_online", "___cds_wfs_end", "_cds_wfs_push", "___cds_wfs_node_sync_next", "___cds_wfs_pop", "___cds_wfs_pop_all", "_cds_wfs_empty", "___cds_lfs_empty_head", "_cds_lfs_push", "___cds_lfs_pop", "___cds_lfs_pop_all", "_cds_lfs_empty", "___cds_wfcq_append", "_cds_wfcq_enqueue", "_cds_wfcq_empty", "___cds_wfcq_busy_wait", "___cds_wfcq_node_sync_next", "_cds_wfcq_node_init_atomic", "___cds_wfcq_dequeue_with_state", "___cds_wfcq_splice", "_cds_lfq_enqueue_rcu", "make_dummy", "enqueue_dummy", "rcu_free_dummy", "_cds_lfq_dequeue_rcu", "urcu_ref_get_safe", "urcu_ref_put", "urcu_ref_get_unless_zero", "urcu_wait_add", "urcu_move_waiters", "urcu_wait_set_state", "_cds_wfs_node_init", "urcu_wait_node_init", "urcu_adaptative_wake_up", "urcu_adaptative_busy_wait", "call_rcu_wait", "call_rcu_wake_up", "call_rcu_completion_wait", "call_rcu_completion_wake_up", "wake_call_rcu_thread", "_cds_wfcq_node_init", "_call_rcu", "futex_wait", "futex_wake_up", "wake_worker_thread", "wake_up_defer", "wait_defer", "rcu_defer_barrier_queue", "_rcu_defer_barrier_thread", "rcu_defer_barrier_thread", "_defer_rcu", "_cds_wfs_first", "___cds_wfs_next", "_cds_wfs_next_blocking", "urcu_wake_all_waiters", "memb.smp_mb_master", "memb.wait_gp", "urcu_common_reader_state", "memb.wait_for_readers", "memb.synchronize_rcu", "mb.smp_mb_master", "mb.wait_gp", "mb.wait_for_readers", "mb.synchronize_rcu", "qsbr.wait_gp", "urcu_qsbr_reader_state", "qsbr.wait_for_readers", "qsbr.urcu_qsbr_read_ongoing", "qsbr.urcu_qsbr_thread_offline", "qsbr.urcu_qsbr_thread_online", "qsbr.urcu_qsbr_synchronize_rcu", "bp.smp_mb_master", "urcu_bp_reader_state", "bp.wait_for_readers", "bp.urcu_bp_synchronize_rcu"]
 end UrcuVerif.Gen.Src
